@@ -15,6 +15,11 @@ import (
 
 func init() { scenarios["C19"] = runC19 }
 
+// scriptedNICs is a NIC event source driven by the scheduler.
+type scriptedNICs chan string
+
+func (c scriptedNICs) Subscribe() <-chan string { return c }
+
 func runC19(s *Sim) {
 	t := s.T
 	s.Family = "multi-transport"
@@ -39,11 +44,30 @@ func runC19(s *Sim) {
 	}
 	interval := Pick(t, "poll-interval", time.Second, 5*time.Second)
 	evCh := make(chan transport.TransportID, 64)
+	nicCh := make(chan string, 64)
+	// event source: either the harness's own subscriber or the library's NIC subscriber fed by a scripted
+	// NIC listener (interface names mapped to members; a name nobody mapped selects the empty id)
+	useNIC := mode == "event" && t.Bool("nic-event-subscriber", 1, 2)
+	emit := func(id transport.TransportID) {
+		if useNIC {
+			nicCh <- "nic-" + string(id)
+			return
+		}
+		evCh <- id
+	}
 	cfg := multi.TransportConfig{TransportMap: tm, InitialTransportID: initial}
 	switch mode {
 	case "event":
 		cfg.SchedulerMode = multi.SchedulerModeEvent
 		cfg.EventScheduler = &multi.EventScheduler{Subscriber: multi.EventSchedulerFunc(func(ctx context.Context) <-chan transport.TransportID { return evCh })}
+		if useNIC {
+			nm := map[string]transport.TransportID{"nic-zz": "zz"}
+			for _, id := range ids {
+				nm["nic-"+string(id)] = id
+			}
+			cfg.EventScheduler = &multi.EventScheduler{Subscriber: &multi.NICEventSubscriber{NICManager: scriptedNICs(nicCh), NICTransportID: nm}}
+			s.Stat("env.nic-event-subscriber")
+		}
 	case "round-robin":
 		cfg.SchedulerMode = multi.SchedulerModePolling
 		cfg.PollingScheduler = &multi.PollingScheduler{Poller: multi.NewRoundRobinPoller(append([]transport.TransportID(nil), ids...)), Interval: interval}
@@ -214,7 +238,7 @@ func runC19(s *Sim) {
 				default:
 					id = ids[t.Choose("sel-member", nMem)]
 				}
-				evCh <- id
+				emit(id)
 				if isMember(id) {
 					cur, known = id, true
 				}
@@ -235,6 +259,56 @@ func runC19(s *Sim) {
 		s.Step(acts)
 	}
 	_ = lastReadFrom
+	// ---- probe: selections arriving while a Write is held up inside the selected member ----
+	if mode == "event" && nMem > 1 && known && s.Idle(0) && t.Bool("probe-selections-behind-slow-write", 1, 3) {
+		a := cur
+		gate := make(chan struct{})
+		s.mu.Lock()
+		mem[a].writeGate = gate
+		s.mu.Unlock()
+		n++
+		pa := fmt.Sprintf("w|%d", n)
+		wa := &wrec{payload: pa, expect: a, exact: true}
+		wa.op = &Op{Name: "Write", Args: pa, Run: func(ctx context.Context) (any, error) { return nil, tr.Write([]byte(pa)) }}
+		writes = append(writes, wa)
+		s.Start(0, wa.op)
+		s.Wait()
+		var others []transport.TransportID
+		for _, id := range ids {
+			if id != a {
+				others = append(others, id)
+			}
+		}
+		k := Pick(t, "probe-selections", 3, 5, 9)
+		last := a
+		for j := 0; j < k; j++ {
+			id := a
+			if j%2 == 1 || j == k-1 {
+				id = others[t.Choose("probe-sel-member", len(others))]
+			}
+			emit(id)
+			last = id
+			s.Wait()
+		}
+		s.StatN("env.selections-while-a-write-is-held-up", k)
+		s.mu.Lock()
+		mem[a].writeGate = nil
+		s.mu.Unlock()
+		close(gate)
+		s.Wait()
+		s.Harvest()
+		cur = last
+		if s.Idle(0) {
+			n++
+			pb := fmt.Sprintf("w|%d", n)
+			wb := &wrec{payload: pb, expect: cur, exact: true}
+			wb.op = &Op{Name: "Write", Args: pb, Run: func(ctx context.Context) (any, error) { return nil, tr.Write([]byte(pb)) }}
+			writes = append(writes, wb)
+			s.Start(0, wb.op)
+			s.Wait()
+			s.Harvest()
+		}
+	}
 	// settle: read everything that was delivered
 	for k := 0; k < 4096; k++ {
 		got := 0
@@ -348,6 +422,15 @@ func runC19(s *Sim) {
 			}
 		}
 		s.mu.Unlock()
+	}
+	if t.Bool("every-member-read-fails-before-close", 1, 4) {
+		// every member's connection breaks (the members themselves are not closed): Close still closes them all
+		for _, id := range ids {
+			mem[id].failRead(errors.New("dsim: connection reset"))
+		}
+		s.Stat("fault.every-member-read-error")
+		s.Wait()
+		s.Harvest()
 	}
 	if s.Idle(ctlT) {
 		cl := &Op{Name: "Close", Run: func(ctx context.Context) (any, error) { return nil, tr.Close() }}
